@@ -28,6 +28,10 @@ CLAIMED['C18'] = dict(level='other', engine='crosshair', ref='DESIGN.md §4 C18'
    text='CrossHair (z3) symbolically executes the real save_parameters against a modelled file system with a SYMBOLIC pre-state (each of name/.old/.new absent, complete or truncated, constrained by a representation invariant that CrossHair itself shows inductive), a symbolic crash index and a symbolic number of lost buffered chunks; post-conditions: a complete checkpoint remains and name is never truncated. One inductive step from an arbitrary valid state covers any number of consecutive interrupted writes. Counterexamples are replayed on a real temporary directory (single step and whole crash chain from a clean directory) before being reported. Bounded by the chunk count of the modelled json.dump and the per-condition time budget, hence "other" (bounded symbolic execution), not proof.',
    note='File-system model (atomic rename, partial writes, buffered data lost on crash before close) validated against the real os/open on hundreds of concrete runs per check; json.dump modelled as K chunk writes; process crash, not power loss (no fsync modelling); first write into an empty directory outside the claim; safely=False / overwrite=True in-place modes are documented non-atomic and only checked for leaving siblings untouched.',
    technique='CrossHair symbolic execution (z3) of the real save_parameters over a modelled file system: symbolic pre-state, crash point and lost-buffer count; inductive invariant; concrete replay on a real directory')
+CLAIMED['C13'] = dict(level='other', engine='crosshair', ref='DESIGN.md §4 C13',
+   text='CrossHair (z3) symbolically executes the real process_object / process_objects / from_json_safe / remove_comments on specifications whose SHAPE is enumerated (34 shapes: inline, referenced, list, sibling, nested to depth 3, comment keys, ignored objects) and whose ids and reference strings are SYMBOLIC strings; for every feasible equality pattern among the strings the post-condition states what an independent reference semantics expects (same instance for all holders, update visible through every holder, JSONParseError for duplicate ids at any depth and for dangling / forward / self references, no effect of _-keys and ignored objects). Each obligation has a reachability twin; counterexamples are replayed on the real code (real dict registry and the torchtree main pipeline).',
+   note='Ids are arbitrary unicode strings of length 1..2 (quick) / 1..3 (thorough) excluding the range-reference characters { } : (documented reference syntax; malformed ranges are recorded as notes, outside the id domain); tiny registered classes stand for the model classes, tensor payloads are concrete; under CrossHair the registry is an equivalent association list; json_factory equivalence is tensor-valued and outside this check.',
+   technique='CrossHair symbolic execution (z3) of the real id-resolution code with symbolic id strings over enumerated specification shapes; reachability twins; concrete replay')
 NA_TABLE = {}
 NA_REASON = 'check not built yet in this round (planned in DESIGN.md §4); not claimed until its check exists'
 checks = []
